@@ -11,7 +11,7 @@ for pid in props:
     if pid not in claimed:
         continue
     c = claimed[pid]
-    hs = [h for h in cfg["harness"] if h["property"] == pid]
+    hs = [h for h in cfg["harness"] if h["property"] == pid or pid in h.get("also", [])]
     assert hs, pid
     obl = sorted({h.get("obligation", h["name"]) for h in hs})
     checks.append({
